@@ -57,6 +57,14 @@ type Exec struct {
 	// per path
 	globals     map[*ssa.Global]*Object
 	initDone    map[*ssa.Package]bool
+	specDepth   int
+	specObjBase int
+	specFailed  map[ssa.Instruction]bool
+	noSpec      bool
+	Merged      int
+	condMemo    map[*Term]*Term
+	noResolve   bool
+	Resolved    int
 	initLenient int
 	curInitFn   *ssa.Function
 	fresh       map[string]int
@@ -159,6 +167,32 @@ func (ex *Exec) resetPath(prefix []int) {
 	ex.curKnown = nil
 	ex.sched = nil
 	ex.initLenient = 0
+	ex.condMemo = map[*Term]*Term{}
+	ex.specDepth = 0
+	if ex.specFailed == nil {
+		ex.specFailed = map[ssa.Instruction]bool{}
+	}
+	condResolver = ex.resolveCond
+}
+
+// resolveCond returns TTrue / TFalse when the path condition decides c, else c itself.
+// Results are memoised per path (the path condition only grows, so a decided condition stays decided).
+func (ex *Exec) resolveCond(c *Term) *Term {
+	if ex.noResolve {
+		return c
+	}
+	if r, ok := ex.condMemo[c]; ok {
+		return r
+	}
+	r := c
+	if ex.solver.Check(ex.pc, c) == Unsat {
+		r = TFalse
+	} else if ex.solver.Check(ex.pc, Not(c)) == Unsat {
+		r = TTrue
+	}
+	ex.condMemo[c] = r
+	ex.Resolved++
+	return r
 }
 
 func (ex *Exec) runPath(entry *ssa.Function, prefix []int) {
@@ -215,6 +249,9 @@ func (ex *Exec) assume(c *Term) {
 	if c == TTrue {
 		return
 	}
+	if ex.specDepth > 0 {
+		panic(specAbort{})
+	}
 	ex.pc = append(ex.pc, c)
 }
 
@@ -238,6 +275,9 @@ func (ex *Exec) choose(conds []*Term) int {
 			panic(pathEnd{"infeasible"})
 		}
 		return idx
+	}
+	if ex.specDepth > 0 {
+		panic(specAbort{})
 	}
 	ex.Branches++
 	if ex.dpos < len(ex.decisions) {
@@ -281,6 +321,9 @@ func (ex *Exec) choose(conds []*Term) int {
 func (ex *Exec) chooseN(n int) int {
 	if n == 1 {
 		return 0
+	}
+	if ex.specDepth > 0 {
+		panic(specAbort{})
 	}
 	ex.Branches++
 	if ex.dpos < len(ex.decisions) {
@@ -327,6 +370,9 @@ func (ex *Exec) oblige(cond *Term, kind, label string) {
 		ex.Discharged++
 		ex.Trivial++
 		return
+	}
+	if ex.specDepth > 0 {
+		panic(specAbort{})
 	}
 	// known-finding regions: first check outside all declared regions
 	goal := Not(cond)
@@ -470,6 +516,9 @@ func (ex *Exec) callFunction(fn *ssa.Function, args []Value, bindings []Value, s
 		return nil // imported packages are initialised lazily, when one of their globals is touched
 	}
 	if h := ex.lookupStub(fn, name); h != nil {
+		if ex.specDepth > 0 && !pureStub(name) {
+			panic(specAbort{})
+		}
 		ex.StubsUsed[stubDisplayName(fn, name)]++
 		return h(ex, fn, args)
 	}
@@ -512,10 +561,20 @@ func (ex *Exec) runFrame(fr *Frame) Value {
 	fn := fr.fn
 	block := fn.Blocks[0]
 	var prev *ssa.BasicBlock
+blockLoop:
 	for {
 		var next *ssa.BasicBlock
 		// phis first, simultaneously
 		i := 0
+		if prev == nil && block != fn.Blocks[0] {
+			// entered through a merged branch: phis were already assigned
+			for i < len(block.Instrs) {
+				if _, ok := block.Instrs[i].(*ssa.Phi); !ok {
+					break
+				}
+				i++
+			}
+		}
 		if prev != nil {
 			pi := -1
 			for k, p := range block.Preds {
@@ -556,7 +615,14 @@ func (ex *Exec) runFrame(fr *Frame) Value {
 				var taken bool
 				if c.IsConst() {
 					taken = c.Val != 0
+				} else if j := ex.trySpeculate(fr, block, in, c); j != nil {
+					// both sides were side-effect free and rejoin at j: merged into ite terms
+					prev, block = nil, j
+					continue blockLoop
 				} else {
+					if ex.specDepth > 0 {
+						panic(specAbort{})
+					}
 					if fr.symIf == nil {
 						fr.symIf = map[ssa.Instruction]int{}
 					}
@@ -604,6 +670,193 @@ func (ex *Exec) runFrame(fr *Frame) Value {
 		}
 		prev, block = block, next
 	}
+}
+
+type specAbort struct{}
+
+// pureStub: stubs that neither mutate engine state nor create path-condition facts.
+func pureStub(name string) bool {
+	for _, p := range []string{"math/bits.", "bytes.Equal", "internal/bytealg.", "bytes.IndexByte", "strings.IndexByte", "strings.Contains", "strings.Index",
+		"(*go.uber.org/zap", "go.uber.org/zap", "fmt.Sprint", "fmt.Errorf", "errors.Is", "errors.As", "runtime.KeepAlive", "(time.Time).Sub", modPath + "/conn.AddrPortMappedEqual"} {
+		if strings.HasPrefix(name, p) {
+			return true
+		}
+	}
+	if i := strings.LastIndex(name, ".vf"); i >= 0 {
+		switch name[i+1:] {
+		case "vfAnd", "vfOr", "vfImp", "vfIte", "vfSymbolic", "vfFuncID", "vfUFBool", "vfUF64", "vfCase":
+			return true
+		}
+	}
+	return false
+}
+
+type specLeaf struct {
+	cond *Term
+	from *ssa.BasicBlock
+	to   *ssa.BasicBlock
+}
+
+const specMaxBlocks = 12
+
+// trySpeculate handles short-circuit style control flow without forking: starting from the
+// symbolic branch `in` at the end of block, both sides are executed speculatively as long as they
+// are free of side effects, forks and non-trivial obligations, and all paths rejoin at one block
+// whose phis are then assigned ite terms.  Returns the join block, or nil when not applicable.
+func (ex *Exec) trySpeculate(fr *Frame, block *ssa.BasicBlock, in *ssa.If, c *Term) (join *ssa.BasicBlock) {
+	if ex.noSpec || ex.initLenient > 0 {
+		return nil
+	}
+	// cheap structural pre-check: each side is either the join itself or a small single-pred block
+	if len(block.Succs[0].Preds) > 1 && len(block.Succs[1].Preds) > 1 && block.Succs[0] != block.Succs[1] {
+		return nil
+	}
+	key := ssa.Instruction(in)
+	if ex.specFailed[key] {
+		return nil
+	}
+	savedFrame, savedPos, savedSteps := ex.curFrame, fr.pos, ex.steps
+	savedObl, savedDis, savedTriv := ex.Obligations, ex.Discharged, ex.Trivial
+	base := objCount
+	if ex.specDepth == 0 {
+		ex.specObjBase = base
+	}
+	ex.specDepth++
+	var leaves []specLeaf
+	ok := func() (ok bool) {
+		defer func() {
+			if r := recover(); r != nil {
+				if _, isAbort := r.(specAbort); isAbort {
+					ok = false
+					return
+				}
+				if _, isU := r.(unsupportedErr); isU {
+					ok = false
+					return
+				}
+				panic(r)
+			}
+		}()
+		budget := specMaxBlocks
+		var walk func(b, pred *ssa.BasicBlock, guard *Term)
+		walk = func(b, pred *ssa.BasicBlock, guard *Term) {
+			// b is a candidate intermediate block: must be entered only from pred
+			if len(b.Preds) != 1 {
+				leaves = append(leaves, specLeaf{guard, pred, b})
+				return
+			}
+			budget--
+			if budget < 0 {
+				panic(specAbort{})
+			}
+			for _, instr := range b.Instrs {
+				if p := instr.Pos(); p.IsValid() {
+					fr.pos = p
+				}
+				ex.steps++
+				switch x := instr.(type) {
+				case *ssa.Phi:
+					fr.env[x] = ex.get(fr, x.Edges[0])
+				case *ssa.Jump:
+					walk2 := b.Succs[0]
+					if len(walk2.Preds) == 1 {
+						walk(walk2, b, guard)
+					} else {
+						leaves = append(leaves, specLeaf{guard, b, walk2})
+					}
+					return
+				case *ssa.If:
+					cc := ex.get(fr, x.Cond).(*Term)
+					switch cc {
+					case TTrue:
+						walk(b.Succs[0], b, guard)
+					case TFalse:
+						walk(b.Succs[1], b, guard)
+					default:
+						walk(b.Succs[0], b, AndB(guard, cc))
+						walk(b.Succs[1], b, AndB(guard, Not(cc)))
+					}
+					return
+				case *ssa.Return, *ssa.Panic, *ssa.Defer, *ssa.RunDefers, *ssa.Go, *ssa.Send, *ssa.Select, *ssa.MapUpdate:
+					panic(specAbort{})
+				default:
+					ex.step(fr, instr)
+				}
+			}
+		}
+		walk(block.Succs[0], block, c)
+		walk(block.Succs[1], block, Not(c))
+		return true
+	}()
+	ex.specDepth--
+	ex.curFrame, fr.pos = savedFrame, savedPos
+	if !ok || len(leaves) < 2 {
+		ex.steps = savedSteps
+		ex.Obligations, ex.Discharged, ex.Trivial = savedObl, savedDis, savedTriv
+		ex.specFailed[key] = true
+		return nil
+	}
+	join = leaves[0].to
+	for _, l := range leaves {
+		if l.to != join {
+			ex.specFailed[key] = true
+			return nil
+		}
+	}
+	// assign the phis of the join block
+	type pv struct {
+		phi *ssa.Phi
+		v   Value
+	}
+	var assigns []pv
+	ok = func() (ok bool) {
+		defer func() {
+			if r := recover(); r != nil {
+				if _, isU := r.(unsupportedErr); isU {
+					ok = false
+					return
+				}
+				panic(r)
+			}
+		}()
+		for _, instr := range join.Instrs {
+			phi, isPhi := instr.(*ssa.Phi)
+			if !isPhi {
+				break
+			}
+			var acc Value
+			for k := len(leaves) - 1; k >= 0; k-- {
+				l := leaves[k]
+				pi := -1
+				for i, p := range join.Preds {
+					if p == l.from {
+						pi = i
+						break
+					}
+				}
+				if pi < 0 {
+					return false
+				}
+				v := ex.get(fr, phi.Edges[pi])
+				if acc == nil {
+					acc = v
+				} else {
+					acc = iteValue(l.cond, v, acc)
+				}
+			}
+			assigns = append(assigns, pv{phi, acc})
+		}
+		return true
+	}()
+	if !ok {
+		ex.specFailed[key] = true
+		return nil
+	}
+	for _, a := range assigns {
+		fr.env[a.phi] = a.v
+	}
+	ex.Merged++
+	return join
 }
 
 // stepLenient executes one instruction of a package initialiser; what the engine cannot model
